@@ -548,6 +548,12 @@ def call_builtin(ex, reg, st, f: VBuiltin, args, kwargs, node):
                         parts.append(s)
                     parts.append(it.t)
                 return [(st, VStr(parts[0] if len(parts) == 1 else z3.Concat(*parts)))]
+            if isinstance(v, VStr):
+                # join over the characters of a string: exact for constants, otherwise outside the subset
+                cv, cs = concrete_str(v.t), concrete_str(s)
+                if cv is not None and cs is not None:
+                    return [(st, VStr(mk_str(cs.join(cv))))]
+                raise EngineUnsupported("str.join over the characters of a symbolic string")
             el, t = ex.as_seq(st, v)
             if t is None:
                 return [(st, VStr(mk_str("")))]
